@@ -243,16 +243,53 @@ def run_cases(judge, cases, sample_every=0):
     return st
 
 
+def _in_child(fn, *args):
+    """Run fn(*args) in a forked child and return its (picklable) result."""
+    import pickle  # pylint: disable=import-outside-toplevel
+
+    rfd, wfd = os.pipe()
+    pid = os.fork()
+    if pid == 0:
+        code = 0
+        try:
+            os.close(rfd)
+            try:
+                blob = pickle.dumps(("ok", fn(*args)))
+            except BaseException as err:  # pylint: disable=broad-except
+                blob = pickle.dumps(("err", f"{type(err).__name__}: {err}\n{traceback.format_exc()}"))
+            with os.fdopen(wfd, "wb") as fh:
+                fh.write(blob)
+        except BaseException:  # pylint: disable=broad-except
+            code = 1
+        finally:
+            os._exit(code)  # pylint: disable=protected-access
+    os.close(wfd)
+    with os.fdopen(rfd, "rb") as fh:
+        blob = fh.read()
+    os.waitpid(pid, 0)
+    if not blob:
+        raise Broken("child process died without a result")
+    tag, val = pickle.loads(blob)
+    if tag != "ok":
+        raise Broken(f"child process failed: {val}")
+    return val
+
+
 def check_deterministic(judge, case):
-    """Run one case twice and demand identical observations (exit 2 otherwise)."""
-    a = judge(case)
-    b = judge(case)
-    if (a.obs, a.violations, a.states, a.transitions) != (
-        b.obs,
-        b.violations,
-        b.states,
-        b.transitions,
-    ):
+    """
+    Harness determinism: the same case judged in two separately forked children of this
+    process must give identical observations (exit 2 otherwise).  Each child starts from the
+    same process image, so state that the LIBRARY keeps between calls cannot make the two runs
+    differ -- only nondeterminism of the harness (time, hashing, scheduling) can.
+    """
+
+    def once():
+        o = judge(case)
+        return (o.obs, o.violations, o.states, o.transitions)
+
+    a = _in_child(once)
+    b = _in_child(once)
+    if a != b:
         raise Broken(f"nondeterministic harness on case {str(case)[:300]}")
 
 
